@@ -572,7 +572,7 @@ struct C18 : Property
 			ctx.cover("W3|threads" + std::to_string(nthreads) + "|seedcalls" + std::to_string(s.seed_calls > 4 ? 4 : s.seed_calls));
 		}
 		if (!g_alloc.live.empty())
-			ctx.fail("C18:leak@" + g_alloc.site_of(g_alloc.live.begin()->second), "%zu allocation(s) remain after all threads finished:%s", g_alloc.live.size(), g_alloc.describe_live().c_str());
+			ctx.fail("C18:leak@" + g_alloc.first_live_site(), "%zu allocation(s) remain after all threads finished:%s", g_alloc.live.size(), g_alloc.describe_live().c_str());
 	}
 };
 C18::Shared *C18::g_sh = nullptr;
